@@ -79,6 +79,62 @@ def _range_guards(fn, d):
     return lo, hi
 
 
+def _nest_guards(d, node):
+    """(lower, upper): is `node` nested in the true branch of conditions (if / ?: / && chains)
+    that establish `param >= 0` resp. `param < bound`?"""
+    lo = hi = False
+    child = node
+    for a in node.ancestors():
+        cond = None
+        if a.k in ("IfStmt", "ConditionalOperator"):
+            kids = [x for x in a.c if x is not None]
+            if len(kids) >= 2 and (kids[1] is child):
+                cond = kids[0]
+        elif a.k == "BinaryOperator" and a.op == "&&" and a.c[1] is child:
+            cond = a.c[0]
+        if cond is not None:
+            leaves = []
+
+            def split(c):
+                c = c.strip()
+                if c.k == "BinaryOperator" and c.op == "&&":
+                    split(c.c[0])
+                    split(c.c[1])
+                else:
+                    leaves.append(c)
+            split(cond)
+            for lf in leaves:
+                if lf.k != "BinaryOperator" or lf.op not in ("<", "<=", ">", ">="):
+                    continue
+                l, r = lf.c[0].strip_casts(), lf.c[1].strip_casts()
+                op = lf.op
+                if r.k == "DeclRefExpr" and r.get("d") == d and r.get("dk") == "param":
+                    l, r = r, l
+                    op = {"<": ">", "<=": ">=", ">": "<", ">=": "<="}[op]
+                if not (l.k == "DeclRefExpr" and l.get("d") == d and l.get("dk") == "param"):
+                    continue
+                rv = lf.c[1].cv if r is lf.c[1].strip_casts() else lf.c[0].cv
+                if (op == ">=" and rv == 0) or (op == ">" and rv == -1):
+                    lo = True
+                elif op == "<" and rv is None:
+                    hi = True
+        child = a
+    return lo, hi
+
+
+def _index_checked(fn, d, sites):
+    """Every node of `sites` runs only after `param >= 0` and `param < bound` are established: by
+    dominating exit guards, or by the conditions it is nested in."""
+    lo, hi = _range_guards(fn, d)
+    for s_ in sites:
+        nlo, nhi = _nest_guards(d, s_)
+        if not (nlo or any(fn.cfg.node_dominates(_first_cfg(fn, g), s_) for g in lo)):
+            return False
+        if not (nhi or any(fn.cfg.node_dominates(_first_cfg(fn, g), s_) for g in hi)):
+            return False
+    return True
+
+
 def _first_cfg(fn, stmt):
     w = fn.cfg.where()
     best = None
@@ -365,10 +421,32 @@ def run(ctx):
                 continue
             ni += 1
             key = "index-arg|%s:%s|%s" % (P.rel(fn.file), fn.name, p["n"])
-            lo, hi = _range_guards(fn, p["d"])
-            ok = any(all(fn.cfg.node_dominates(_first_cfg(fn, g), s_) for s_ in subs) for g in lo) and \
-                any(all(fn.cfg.node_dominates(_first_cfg(fn, g), s_) for s_ in subs) for g in hi)
+            ok = _index_checked(fn, p["d"], subs)
             how = "own guard"
+            if not ok and fn.static:
+                # a helper of one file: the obligation sits at its call sites - a caller's own index
+                # argument must be checked before the call; a loop counter or other local of the caller is
+                # not an index argument of the API
+                pi = [q["d"] for q in fn.params].index(p["d"])
+                sites = [(g, c) for g in P.funcs_in(P.rel(fn.file)) for c in g.calls() if c.callee == fn.name]
+                taken = any(r.k == "DeclRefExpr" and r.name == fn.name and r.get("dk") not in ("local", "param")
+                            for g in P.funcs_in(P.rel(fn.file)) for r in g.body.walk()) and \
+                    len([1 for g in P.funcs_in(P.rel(fn.file)) for r in g.body.walk()
+                         if r.k == "DeclRefExpr" and r.name == fn.name and r.get("dk") not in ("local", "param")]) > len(sites)
+                if sites and not taken:
+                    ok = True
+                    hows = []
+                    for g, c in sites:
+                        a = c.args()[pi].strip_casts() if pi < len(c.args()) else None
+                        if a is not None and a.k == "DeclRefExpr" and a.get("dk") == "param":
+                            if not _index_checked(g, a.get("d"), [c]):
+                                ok = False
+                                hows.append("%s passes its own `%s` unchecked" % (g.name, a.name))
+                            else:
+                                hows.append("%s checks `%s` before the call" % (g.name, a.name))
+                        else:
+                            hows.append("%s passes `%s`, not an index argument" % (g.name, src(c.args()[pi])[:30] if a is not None else "?"))
+                    how = "static helper; " + "; ".join(hows)
             if not ok:
                 # first handed to a callee that checks it and whose failure is returned before the subscript
                 for c in fn.calls():
